@@ -368,6 +368,44 @@ def cmp_answer(q, io, mo, limits=None):
 
 
 # ------------------------------------------------------------------------------------ the registry invariant
+def default_scalars(db, require_default=False):
+    """`Scalar(1.0, unit)` (no category named) for every registered unit: where GetDefaultCategory gives a category
+    the Scalar must build with that category and unit (every unit, if `require_default`).  Returns
+    (failures, number of units without default category)."""
+    from barril.units import Scalar
+    from barril.units.unit_database import UnitDatabase
+
+    out, none = [], 0
+    UnitDatabase.PushSingleton(db)
+    try:
+        for qt, infos in db.quantity_types.items():
+            for i in infos:
+                try:
+                    dc = db.GetDefaultCategory(i.unit)
+                except Exception as e:
+                    out.append(dict(clause="GetDefaultCategory raises for a registered unit", unit=i.unit, qtype=qt,
+                                    error=repr(e)[:120]))
+                    continue
+                if dc is None:
+                    none += 1
+                    if require_default:
+                        out.append(dict(clause="a registered unit has no default category", unit=i.unit, qtype=qt))
+                    continue
+                try:
+                    s = Scalar(1.0, i.unit)
+                    if s.GetUnit() != i.unit or s.GetCategory() != dc:
+                        out.append(dict(clause="Scalar(value, unit) has another unit or category", unit=i.unit, qtype=qt))
+                except Exception as e:
+                    ci = db.categories_to_quantity_types.get(dc)
+                    out.append(dict(clause="a registered unit cannot be used to build a Scalar (its default category is "
+                                           "not a category of its quantity type)", unit=i.unit, qtype=qt,
+                                    default_category=dc, category_qtype=ci.quantity_type if ci else None,
+                                    error=repr(e)[:120]))
+    finally:
+        UnitDatabase.PopSingleton()
+    return out, none
+
+
 def registry_invariant(db, based_types=None, scalars=True):
     """The well-formedness clauses of C14 on a real database.  Returns a list of failures (dicts with a
     `clause`); `based_types` = quantity types that received an AddUnitBase (None: every type is
